@@ -215,18 +215,19 @@ ids tiling every tracked sequence — `scnOK`), any persisted start `fp fq fc`, 
 that are met for the first time during the run (each with its first-contact position, where its
 sequence starts), any list of harness actions (pushes in any order with loss and duplicates,
 affected results, forced recoveries, sliced answers, timers, transient failures, access hashes
-learned late).  For every tracked sequence `k`: if at the end the sequence's position is at or
+learned late), started from the persisted state or (`ns`) from no state at all — then from the
+server's state at that moment, which is written first.  For every tracked sequence `k`: if at the end the sequence's position is at or
 above every log position of `k` (recovery completed), then every non-marker entry of `k` above the
 start was dispatched by the manager, unless too-long was reported. -/
-theorem C02_manager_recovery_complete (w : World) (fp fq : Int) (fc cr : List (Nat × Int)) (acts : List Action)
+theorem C02_manager_recovery_complete (w : World) (fp fq : Int) (fc cr : List (Nat × Int)) (acts : List Action) (ns : Bool)
     (hpe : w.persisted = fc) (hcr : w.cr = cr)
     (hS : scnOK w.log (seqKeys (fc ++ cr)) (initOf w.p0 w.q0 w.c0) = true) (k : Nat) (hk : k ∈ seqKeys (fc ++ cr))
-    (b : Box) (hb : ((Mgr.start orders w fp fq fc).runActions orders acts).getBox k = some b)
+    (b : Box) (hb : ((Mgr.start orders w fp fq fc ns).runActions orders acts).getBox k = some b)
     (hrec : ∀ e ∈ seqLog w.log k, e.pos ≤ b.state) :
     complete (seqLog w.log k) (mkOf w.log) (initOf fp fq (fc ++ cr) k)
-      (projSeq w.log k ((Mgr.start orders w fp fq fc).runActions orders acts).trace) = true := by
+      (projSeq w.log k ((Mgr.start orders w fp fq fc ns).runActions orders acts).trace) = true := by
   have hscn := scn_of_ok _ _ _ hS
-  obtain ⟨hw, htr, hbox⟩ := mgr_projects orders orders_good w fp fq fc cr hpe hcr hscn acts k hk
+  obtain ⟨hw, htr, hbox⟩ := mgr_projects orders orders_good w fp fq fc cr hpe hcr hscn acts k hk ns
   rw [htr]
   apply C02_recovery_complete k (mkOf w.log) (seqLog w.log k) _ (initOf fp fq (fc ++ cr) k)
     (hscn.tiledK k hk) _ hw
